@@ -36,7 +36,7 @@ Definition var_ok (v : string) : bool :=
 (* characters a numeric token may continue with, as in GramDefs.continues (LNum _ ae) *)
 Fixpoint num_chars_ok (ae : bool) (s : string) : bool :=
   match s with
-  | EmptyString => true
+  | EmptyString => negb ae               (* the text does not end with the exponent letter *)
   | String c r =>
       (is_digit c || Ascii.eqb c "." || is_alpha c || (ae && (Ascii.eqb c "+" || Ascii.eqb c "-")))
       && num_chars_ok (is_e c) r
@@ -312,11 +312,12 @@ Fixpoint safe_b (a : ast) : bool :=
               && match r with
                  | Null => true
                  | Node PIECE _ v2 c2' => safe_b v2 && safe_b c2' && piece_ok v2 c2'
+                 | Node OTHERWISE _ x _ => safe_b x
                  | _ => safe_b r
                  end
           | _ => false
           end
-      | OTHERWISE | DEGREE | LOGBASE | BVAR => c1
+      | OTHERWISE | DEGREE | LOGBASE | BVAR => false   (* only judged in their positions under PIECEWISE / ROOT / LOG *)
       | CI => var_ok v
       | CN => cn_ok v
       | TRUE | FALSE | E | PI | INF | NAN => true
@@ -362,7 +363,7 @@ Fixpoint unsafe_sites (a : ast) : list ast :=
   | Node t v l r =>
       let sub := (unsafe_sites l ++ unsafe_sites r)%list in
       match t with
-      | PIECE => sub                       (* never a site by itself: judged with its PIECEWISE *)
+      | PIECE | OTHERWISE | DEGREE | LOGBASE | BVAR => sub   (* never sites by themselves: judged with their parent *)
       | _ => if safe_b L p a then [] else match sub with [] => [a] | _ => sub end
       end
   end.
